@@ -52,9 +52,9 @@ CLAIMS = {
         text='Kernel only: proof, for every operand tag combination and every operand value (all 2^64 bit patterns per operand), that the BinaryExpression / UnaryExpression / LiteralExpression branches of eval follow the '
              'documented semantics: result tag float if any float, else long if any long, else int; + - * on the promoted operands; / always float with a located error on a zero divisor; integer % with a located error on zero; '
              'comparisons on the promoted pair; && || ! on boolean/bit; & | ^ ~ on bits and element-wise on equal-length bit arrays (ghost element index, loop invariants) with a located error on a length mismatch; unary minus keeps the tag; '
-             'literal tag follows the literal type, string/char payloads are the quoted text.',
+             'literal tag follows the literal type, string/char payloads are the quoted text. Store site (unit SCOPE, clause assign.int_stored_in_a_long_variable_is_widened): an int assigned to a variable that holds a long must leave a long there - this obligation FAILS on this code base and is a KNOWN-FINDING (the variable keeps the int tag and the next `y + 1` wraps at 32 bits; native replay).',
         note=TB + 'Regions are addressed structurally in the real eval; operand evaluation (recursive eval) is an assumed stub. Double arithmetic and the VALUE of integer * / % are uninterpreted functions (code and specification are built '
-             'from the same symbols; bitwise equality); 32/64-bit + and - are specified modulo 2^n. NOT covered: casts, postfix ++/--, index bounds, string concatenation/formatting (valueToString is opaque), control flow, calls, '
+             'from the same symbols; bitwise equality); 32/64-bit + and - are specified modulo 2^n. NOT covered: the other store sites that share the known finding (declaration with initialiser, member assignment, parameter binding, return values, field initialisers), casts, postfix ++/--, index bounds, string concatenation/formatting (valueToString is opaque), control flow, calls, '
              'scoping, arrays with value semantics, echo - i.e. everything the property says about whole programs beyond these three branches.',
         ref='DESIGN.md §4 C07'),
     'C08': dict(
@@ -63,9 +63,10 @@ CLAIMS = {
              'Compile time (unit SEMK): conversionCost follows the same table, so both sides rank candidates identically on matching static/dynamic types (written lemma over the two contracts). '
              '(b) destructor order (unit OBJM): the destructor walk of destroyObject visits the whole chain obj->cls, base, ... (class table of up to 8 classes, acyclic), enters the destructor of every class that declares one exactly once, executes its first statement, '
              'derived class before base class (two ghost chain positions), each in its own class context with `this` bound to the object and stamped with that class, one scope deep, and restores context and scope depth (two nested loop contracts). '
-             '(c) dispatch: in the member-call branch of eval, obj.m(...) runs the vtable entry of the receiver\'s DYNAMIC class for the signature found through the static class when that method is virtual, the statically found method otherwise, and super.m(...) runs the method found in the base of the static class (region member_dispatch; class / method / vtable lookups uninterpreted). '
-             '(d) construction order: in runConstructorChain the base-constructor chain (for the base class, the same object) runs exactly once and first, then this class\'s field initialisers exactly once, then the constructor body starting after an explicit super(...) statement; a failing phase stops the construction (region ctor_phases: the three phase statements in source order, three loop contracts, events on a ghost clock).',
-        note=TB + 'exec / beginScope / endScope / the `this` binding are models with bodies that only record ghost events. NOT covered: what runs INSIDE the phases (runFieldInitialisers itself, the parameter-to-field copy of `= default` constructors, the choice of the base constructor beyond its loops\' safety), vtable BUILDING (what the table holds), findMethod\'s candidate collection, static fields, generics, WHEN destroyObject is called '
+             '(c) dispatch: in the member-call branch of eval, obj.m(...) runs the vtable entry of the receiver\'s DYNAMIC class for the signature found through the static class when that method is virtual, the statically found method otherwise, and super.m(...) runs the method found in the base of the static class (region member_dispatch; class / method / vtable lookups uninterpreted); for super.m(...) and Name.m(...) - where the target evaluates to a class reference - the named class\'s version runs, a super call keeps the object the running method was called on as receiver, a static call has none (region member_dispatch_super; found and repaired: super.m() passed no receiver). '
+             '(d) construction order: in runConstructorChain the base-constructor chain (for the base class, the same object) runs exactly once and first, then this class\'s field initialisers exactly once, then the constructor body starting after an explicit super(...) statement; a failing phase stops the construction (region ctor_phases: the three phase statements in source order, three loop contracts, events on a ghost clock); an explicit super(args) runs the applicable base constructor of lowest conversion cost and fails when none or two cheapest apply (the specification\'s own argmin is kept as ghost state next to the code\'s choice). '
+             '(e) the run-time class table (unit CTAB): buildClassTable populates every class after the class it extends, so the layout / vtable a class inherits by copy is complete whatever the order of declaration (appendBaseFirst proved with its own contract as induction hypothesis; the populate loop proved against that contract; found and repaired: declaration-order population).',
+        note=TB + 'exec / beginScope / endScope / the `this` binding are models with bodies that only record ghost events. NOT covered: what runs INSIDE the phases (runFieldInitialisers itself, the parameter-to-field copy of `= default` constructors, the implicit zero-argument base constructor choice), vtable BUILDING (what a class adds to the copied table), findMethod\'s candidate collection, static fields, generics, WHEN destroyObject is called '
              '(reference counting / cycle collector; observed: a constructor ending in `return this;` leaves a hidden reference in m_returnValue, so `destroy` of that object never runs its destructor), the candidate '
              'collection loops, and the stamping of a reference with its DECLARED class at declaration / parameter binding - observed defect: `A a = new Sub(); k.g(a)` runs g(Sub) although the analyser resolved g(A) (native oracle, label site.binding.*).',
         ref='DESIGN.md §4 C08'),
@@ -74,16 +75,15 @@ CLAIMS = {
              'invariants); the property clause itself - the binding used never lies below the frame base of the current call (ghost g_fb) - is an obligation that FAILS on this code base and is reported as two KNOWN-FINDINGs (dynamic scoping of lookup / of assign) '
              'with a replay on the real interpreter; any other failing obligation is still a VIOLATION. (b) frame set-up: the parameter-binding loops of call, callMethod and runConstructorChain are proved to bind every parameter in the NEW top scope (observed at an arbitrary name), '
              'to bind nothing but parameter names, and to leave every entry of every caller scope untouched (loop invariants; beginScope is checked to be the one-line push it is modelled as). '
-             '(c) the BlockStatement branch of exec opens exactly one scope and closes it on every path, also when a nested statement returns (region exec_block, unit OBJM); endScope pops exactly one scope (unit TRK).',
+             '(c) the BlockStatement branch of exec opens exactly one scope and closes it on every path, also when a nested statement returns (region exec_block, unit OBJM); endScope pops exactly one scope (unit TRK); the ForStatement branch likewise (region exec_for). The analyser\'s compound-statement visitors restore the scope depth on every exit, the exceptional ones included (unit NEST).',
         note=TB + 'The frame base is a ghost parameter equal to the index of the scope pushed by beginScope(). NOT covered: the part of lookup/assign after the walk (fields, statics, class names), that the callee body (exec) stays inside its frame - it does not, see the two findings - '
              'the binding of `this`, the analyser\'s resolution order, and the renaming corollary (a written argument over these contracts).',
         ref='DESIGN.md §4 C09'),
     'C10': dict(
         text='Kernel only (function half): proof that after the pre-declaration loop of SemanticAnalyser::analyse every top-level function (ghost index) is declared AND has its signature on record - parameter count and return type - '
              'or the loop stopped with one Semantic error for a duplicate name; loop invariants on the outer loop and the parameter loop. With every signature on record before any body is analysed, no later check can depend on where a declaration stands. '
-             'Class half, kernel (unit TFA): SemanticAnalyser::typeFromAst as a whole function - while the class registry is being built (when the class table holds only EARLIER declarations) the type of a member / parameter / return type is computed from its syntax alone: the class table is never consulted and nothing is rejected on its account (ghost call counters; loop contracts over type parameters and type arguments; the recursive calls use the same contract as induction hypothesis).',
-        note=TB + 'The analyser tables are ghost state observed at one arbitrary name; typeFromAst is uninterpreted. NOT covered: that the call-site checks read only that table; the rest of the class half (a derived class declared before its base '
-             'gets an empty copied layout in the RUN-TIME buildClassTable - a confirmed defect, design_probes/repro/C10_derived_declared_before_base.bloch - lives in unordered_map / shared_ptr code outside the lowering); module merge order.',
+             'Class half, kernel (unit TFA): SemanticAnalyser::typeFromAst as a whole function - while the class registry is being built (when the class table holds only EARLIER declarations) the type of a member / parameter / return type is computed from its syntax alone: the class table is never consulted and nothing is rejected on its account (ghost call counters; loop contracts over type parameters and type arguments; the recursive calls use the same contract as induction hypothesis). Unit CYC, region validate_class: the override / abstractness validation of a class runs after that of its base class, whichever is visited first (recursive lambda, contract-only copy as induction hypothesis). Run time (unit CTAB): buildClassTable populates base classes before derived classes whatever the order of declaration (found and repaired: a class declared before its base inherited an empty layout).',
+        note=TB + 'The analyser tables are ghost state observed at one arbitrary name; typeFromAst is uninterpreted. NOT covered: that the call-site checks read only that table; the rest of the class half (member registration order inside buildClassRegistry, instantiateGeneric); module merge order. CTAB assumes class declarations as the parser builds them and an acyclic hierarchy (rank witness; cycles are rejected by the analyser, unit CYC).',
         ref='DESIGN.md §4 C10'),
     'C12': dict(
         text='Kernel only: (a) every lowered unit (SIM, LEX, UPD, QBK, ARITH, PTAB) carries CBMC bounds / pointer / division / shift obligations on every harness: for any input satisfying the stated invariants those functions never index out of range; '
@@ -96,7 +96,7 @@ CLAIMS = {
         text='Proof for the lexer (every member function): every loop terminates (decreases clause on bytes left), every source access is in bounds, every cursor move is '
              'forward, and tokenize ends either with exactly one Lexical diagnostic or with a token vector ending in Eof after consuming the whole source - for any byte string up to 1 MiB. '
              'No raw C++ exception (string_view::substr out_of_range) can surface.',
-        note=TB + 'Beyond the lexer only isolated pieces are under contract: the inheritance-cycle walk of buildClassRegistry (unit CYC: terminates for every class table - decreases clause over the set of marked names - and answers a cycle with one Semantic error) and the "only Semantic errors at the node" clauses of the analyser rule sites (unit SEMK). and the main / @shots extraction tail of ModuleLoader::load (unit LDSH: only Semantic errors whatever the annotation text - std::stoi modelled as possibly failing beyond 9 digits -, two mains rejected, the annotation value carried into the program). The recursive-descent parser, the rest of the module loader and of the analyser are NOT under contract; '
+        note=TB + 'Beyond the lexer only isolated pieces are under contract: the inheritance-cycle walk of buildClassRegistry (unit CYC: terminates for every class table - decreases clause over the set of marked names - and answers a cycle with one Semantic error) the "only Semantic errors at the node" clauses of the analyser rule sites (units SEMK, NEST), the parser\'s token cursor, annotation prefix parsers and type look-ahead (unit PANN: never leave the token vector, terminate, only Parse errors), the array-size literal of parseType (region parseType_array_size: std::stoi may raise std::out_of_range - dynamic exception kinds are modelled, a handler for a narrower type catches only that kind - and the result is a Parse error, never a raw exception) and the main / @shots extraction tail of ModuleLoader::load (unit LDSH: only Semantic errors whatever the annotation text - std::stoi modelled as possibly failing beyond 9 digits -, two mains rejected, the annotation value carried into the program). The rest of the recursive-descent parser, the rest of the module loader and of the analyser are NOT under contract; '
              'the keyword-table lookup is a trusted library model.',
         ref='DESIGN.md §4 C13'),
     'C14': dict(
@@ -122,14 +122,14 @@ CLAIMS = {
              'null only for class references / same array type; a class or array value never converts to a primitive), the accept/reject decision of the initialiser site (validateTypedInitializer region); and, as whole functions, the visitors of four syntactic sites - '
              'return statement, assignment statement, assignment expression, member assignment, postfix ++/-- (never on final variables or final fields, only on int / long) - and the argument check of call expressions (checkArgs), each proved to accept a value only if it has the declared type (local variable, bare field, object.field, function result), to reject assignments to final variables at the node position, '
              'to reject a value in a void function and a bare return in a non-void one, to route every field write through the final-field rule, to refuse inaccessible fields, instance fields via a type name and final fields except through this inside a constructor; '
-             'resolveField (accessibility, static context) and recordFinalFieldAssignment (own constructor, top level, exactly once - map observed at a ghost key).',
+             'resolveField (accessibility, static context) and recordFinalFieldAssignment (own constructor, top level, exactly once - map observed at a ghost key). "Top level" itself (unit NEST): the visitors of block, if, ternary, for and while statements analyse every part - header expressions included - with the nesting depth raised and restore it on every exit, exceptional ones included (scope-exit guards lowered to a single exit point; loop contract over a block\'s statements).',
         note=TB + 'Generic type-parameter paths are excluded by precondition; class names are interned identities; typeEquals / isSubclassOf / inheritanceDistance / inferTypeInfo / getVariableType / findFieldInHierarchy / accept are contract-only stubs or one-record models (the type of an expression and the class tables are uninterpreted). NOT covered: that each rule is invoked in every syntactic position '
              '(~55 further visitor methods) - the call-argument check is under contract as the local lambda checkArgs (arity, every argument has the declared parameter type; loop invariant with a ghost argument index), but the rest of visit(CallExpression&) (callee resolution, accessibility, static context, super calls) is not; array-element assignment, postfix on finals, void operands, static-context and instantiation rules, @quantum / @shots rules.',
         ref='DESIGN.md §4 C16'),
     'C17': dict(
         text='Proof of the recording and reporting kernel: (unit TRK) RuntimeEvaluator::endScope and ::recordTrackedValue as whole functions - every @tracked qubit / qubit[] entry of the closing scope (arbitrary iteration order, ghost entry index) and every recorded field value contributes exactly one outcome, '
              'nothing else contributes, the key is "qubit <name>" / "qubit[] <name>" (or the given name), the outcome is "1"/"0" of the last measurement or "?" for a single qubit and, for an array, the bit string of the last measurement of each element in index order, '
-             '"?" exactly if some element is unmeasured or out of range (witness index), exactly one scope is popped (three nested loop contracts); (unit CLI, regions of runImpl) @shots(N) takes precedence over --shots=N, a run without either is a single run, '
+             '"?" exactly if some element is unmeasured or out of range (witness index), exactly one scope is popped (three nested loop contracts); (unit QEV) measuring a whole qubit[] records for every element the simulator\'s bit under that element\'s own qubit id; (unit CLI, regions of runImpl) @shots(N) takes precedence over --shots=N, a run without either is a single run, '
              'echo is shown for --echo=all always, for --echo=none never, in auto mode (named or default) exactly for a single shot, the per-shot table is ADDED into the aggregate (observed at an arbitrary (variable, outcome) cell; two nested loop contracts with partial sums), and the probability column is count / the sum of that variable\'s counts (loop contracts; total as an exact integer fold).',
         note=TB + 'Strings are (literal id, interned name, <= 8 built characters); qubit arrays have <= 8 elements, scopes <= 8 entries, tables <= 8 outcomes (object-size bounds). Double division is an uninterpreted function, so "probabilities lie in [0,1] and sum to 1" is the written real-arithmetic consequence of count / total, checked numerically only by the native oracle. '
              'For --echo=none the property text ("exactly when --echo=all or a single shot is run") is read with the documented meaning of none (never). NOT covered: that every scope exit calls endScope and every owner destruction calls recordTrackedValue, '
